@@ -1,10 +1,10 @@
-(* Translation tie for C19 (first part: the option constructors and
-   BuildMiddleware).  [ShootGen.RestGen] is written on every run by
+(* Translation tie for C19 (the option constructors, BuildMiddleware, NewWith,
+   Register, NewRest).  [ShootGen.RestGen] is written on every run by
    harness/go/cmd/go2gallina from the CURRENT text of /repo/restclient.go and
    /repo/restclient.shootnew.restconf.go; this file proves that the translated
    functions are the model functions of Model/RestRuntime.v ([denote],
    [build_conf]) and restates C19 theorems over the translated definitions.
-   Not translated (docs/translator.md): Register / NewRest / NewWith. *)
+   NewWith is translated at the instance T = RestConf (generic otherwise). *)
 From Coq Require Import List ZArith Bool String Lia.
 From Shoot Require Import Model.RestRuntime Proofs.RestRuntimeProofs Bridge.RestPrims.
 From ShootGen Require Import RestGen.
@@ -126,6 +126,126 @@ Proof.
   - apply conf_of_options.
 Qed.
 
+(* ---- NewWith (at T = RestConf): new(T), no SetDefault (RestConf does not implement defaulter:
+   decided by the translator from the declarations), then every option in order *)
+Lemma NewWith_loop_bridge : forall all fs r (w : world),
+  NewWith_loop1 M Client all fs r w = (Returned (fold_left (fun r f => f r) fs r), w).
+Proof.
+  intros all fs. induction fs as [|f fs IH]; intros r w; cbn [NewWith_loop1 fold_left].
+  - reflexivity.
+  - unfold apply_opt. apply IH.
+Qed.
+
+Theorem NewWith_is_model : forall fs (w : world),
+  NewWith M Client fs w = (Returned (new_with fs), w).
+Proof. intros fs w. unfold NewWith, new_with. apply NewWith_loop_bridge. Qed.
+
+(* ---- Register / NewRest against [step] of the model *)
+Definition dup_format : string := "ctor of interface %s should not be registered multiple times".
+Definition notreg_format : string := "ctor of interface %s is not regstered".
+
+Lemma reg_insert_absent : forall (w : world) t c,
+  lookup Client w t = None -> reg_insert M Client w t c = (w ++ [(t, c)])%list.
+Proof.
+  induction w as [|[t' c'] w IH]; intros t c H; simpl in *; [reflexivity|].
+  destruct (Nat.eqb t' t); [discriminate|]. rewrite IH by assumption. reflexivity.
+Qed.
+
+Theorem Register_is_model : forall t c (w : world),
+  Register M Client t c w =
+  match step Client w (RestRuntime.Register t c) with
+  | (w', Registered) => (Returned tt, w')
+  | (w', PanicDup t') => (Panicked (PErrorf dup_format t'), w')
+  | (w', _) => (OutOfFuel, w')          (* not an outcome of Register *)
+  end.
+Proof.
+  intros t c w. unfold Register, reg_lookup, step, type_elem.
+  destruct (lookup Client w t) as [c0|] eqn:Hl; cbn.
+  - reflexivity.
+  - rewrite reg_insert_absent by assumption. reflexivity.
+Qed.
+
+Theorem NewRest_is_model : forall t os (w : world),
+  NewRest M Client t (map denote os) w =
+  match step Client w (RestRuntime.NewRest t os) with
+  | (w', Built cl) => (Returned cl, w')
+  | (w', PanicNotReg t') => (Panicked (PErrorf notreg_format t'), w')
+  | (w', _) => (OutOfFuel, w')          (* not an outcome of NewRest *)
+  end.
+Proof.
+  intros t os w. unfold NewRest. rewrite NewWith_is_model.
+  unfold reg_lookup, assert_ctor, apply_ctor, step, type_elem.
+  destruct (lookup Client w t) as [c0|] eqn:Hl; cbn; reflexivity.
+Qed.
+
+(* a history of Register / NewRest operations executed through the translated functions *)
+Definition src_step (w : world) (o : op M Client) : world * RestRuntime.outcome Client :=
+  match o with
+  | RestRuntime.Register t c =>
+      match Register M Client t c w with
+      | (Returned _, w') => (w', Registered)
+      | (_, w') => (w', PanicDup t)
+      end
+  | RestRuntime.NewRest t os =>
+      match NewRest M Client t (map denote os) w with
+      | (Returned cl, w') => (w', Built cl)
+      | (_, w') => (w', PanicNotReg t)
+      end
+  end.
+
+Theorem src_step_is_model : forall w o, src_step w o = step Client w o.
+Proof.
+  intros w [t c|t os]; unfold src_step.
+  - rewrite Register_is_model. unfold step. destruct (lookup Client w t); reflexivity.
+  - rewrite NewRest_is_model. unfold step. destruct (lookup Client w t); reflexivity.
+Qed.
+
+Fixpoint src_run (w : world) (ops : list (op M Client)) : world * list (RestRuntime.outcome Client) :=
+  match ops with
+  | [] => (w, [])
+  | o :: ops' =>
+      let '(w1, out) := src_step w o in
+      let '(w2, outs) := src_run w1 ops' in
+      (w2, out :: outs)
+  end.
+
+Lemma src_run_is_model : forall ops w, src_run w ops = run Client w ops.
+Proof.
+  induction ops as [|o ops IH]; intros w; simpl; [reflexivity|].
+  rewrite src_step_is_model. destruct (step Client w o) as [w1 out]. rewrite IH. reflexivity.
+Qed.
+
+(* C19_history_outcome over the translated Register / NewRest: after any prefix, the outcome of
+   an operation is what the declarative reading of the history says *)
+Theorem C19_history_outcome_src : forall (pre : list (op M Client)) o post,
+  nth_error (snd (src_run [] (pre ++ o :: post))) (List.length pre)
+  = Some (outcome_spec Client pre o).
+Proof. intros. rewrite src_run_is_model. apply history_outcome. Qed.
+
+Theorem C19_register_twice_panics_src : forall t c c' (w : world),
+  fst (Register M Client t c w) = Returned tt ->
+  fst (Register M Client t c' (snd (Register M Client t c w))) = Panicked (PErrorf dup_format t).
+Proof.
+  intros t c c' w. rewrite (Register_is_model t c w). unfold step.
+  destruct (lookup Client w t) as [c0|] eqn:Hl; cbn [fst snd]; [discriminate|]. intros _.
+  rewrite Register_is_model. unfold step.
+  assert (Hl' : lookup Client (w ++ [(t, c)]) t <> None).
+  { clear. induction w as [|[t' c'] w IH]; simpl.
+    - rewrite Nat.eqb_refl. discriminate.
+    - destruct (Nat.eqb t' t); [discriminate | assumption]. }
+  destruct (lookup Client (w ++ [(t, c)]) t); [reflexivity | contradiction].
+Qed.
+
+Theorem C19_newrest_unregistered_panics_src : forall t os (w : world),
+  lookup Client w t = None ->
+  NewRest M Client t (map denote os) w = (Panicked (PErrorf notreg_format t), w).
+Proof. intros t os w H. rewrite NewRest_is_model. unfold step. rewrite H. reflexivity. Qed.
+
+Theorem C19_newrest_applies_registered_ctor_src : forall t c os (w : world),
+  lookup Client w t = Some c ->
+  NewRest M Client t (map denote os) w = (Returned (c (apply_opts os)), w).
+Proof. intros t c os w H. rewrite NewRest_is_model. unfold step. rewrite H. reflexivity. Qed.
+
 End Bridge.
 
 (* the chain built by the translated BuildMiddleware from tagging middlewares:
@@ -148,5 +268,7 @@ Proof.
 Qed.
 
 Print Assumptions BuildMiddleware_is_model.
+Print Assumptions NewRest_is_model.
+Print Assumptions C19_history_outcome_src.
 Print Assumptions C19_conf_holds_exactly_the_options_src.
 Print Assumptions C19_chain_trace_src.
